@@ -699,6 +699,11 @@ KNOWN_CASES = {
         "main.go": 'package main\n\nfunc main() { println(string(*InitApp().H)) }\n',
         "wire.go": '//go:build wireinject\n\npackage main\n\nimport "github.com/google/wire"\n\nfunc InitApp() *App {\n\twire.Build(NewConfig, wire.FieldsOf(new(*Config), "Host"), NewApp)\n\treturn nil\n}\n'},
         what="sig"),
+    "KF-C13-33": dict(files={
+        "t.go": 'package main\n\nimport "fmt"\n\ntype Src struct{ S string }\n\nfunc (s *Src) String() string { return s.S }\n\nvar Std = &Src{S: "std"}\n\ntype App struct{ S string }\n\nfunc NewApp(w fmt.Stringer, data *Src) *App { return &App{S: w.String() + "/" + data.S} }\n',
+        "main.go": 'package main\n\nfunc main() { println(InitApp(&Src{S: "data"}).S) }\n',
+        "wire.go": '//go:build wireinject\n\npackage main\n\nimport (\n\t"fmt"\n\n\t"github.com/google/wire"\n)\n\nfunc InitApp(data *Src) *App {\n\twire.Build(wire.InterfaceValue(new(fmt.Stringer), Std), NewApp)\n\treturn nil\n}\n'},
+        what="sig"),
     "KF-C14-32": dict(files={
         "t.go": 'package main\n\ntype A struct{ S string }\n\nfunc NewA() *A { return &A{S: "a"} }\n',
         "main.go": 'package main\n\nfunc main() { println(InitA().S) }\n',
@@ -873,6 +878,32 @@ DIRECTED = {
         "sets_a.go": 'package main\n\nimport (\n\t"github.com/google/wire"\n\n\t"vscratch/NAME/alpha/conf"\n)\n\nvar ASet = wire.NewSet(conf.NewA)\n',
         "sets_b.go": 'package main\n\nimport (\n\t"fmt"\n\n\t"github.com/google/wire"\n\n\t"vscratch/NAME/beta/conf"\n)\n\nvar BSet = wire.NewSet(wire.InterfaceValue(new(fmt.Stringer), conf.Default))\n',
         "wire.go": '//go:build wireinject\n\npackage main\n\nimport "github.com/google/wire"\n\nfunc InitApp() *App {\n\twire.Build(ASet, BSet, NewApp)\n\treturn nil\n}\n'},
+    # the constructor literal migrate writes for wire.Struct: a parameter named after a field must not hide the struct's
+    # package qualifier, the struct's own type, or another parameter (repaired)
+    "struct_param_hides_package": {
+        "logger/logger.go": 'package logger\n\nimport "log/slog"\n\ntype Options struct {\n\tLogger *slog.Logger\n\tLevel  slog.Level\n}\n',
+        "t.go": 'package main\n\nimport (\n\t"io"\n\t"log/slog"\n)\n\nfunc NewSlog() *slog.Logger { return slog.New(slog.NewTextHandler(io.Discard, nil)) }\nfunc NewLevel() slog.Level  { return slog.LevelWarn }\n',
+        "main.go": 'package main\n\nfunc main() { o := InitOptions(); println(o.Logger != nil, int(o.Level)) }\n',
+        "wire.go": '//go:build wireinject\n\npackage main\n\nimport (\n\t"github.com/google/wire"\n\n\t"vscratch/NAME/logger"\n)\n\nfunc InitOptions() *logger.Options {\n\twire.Build(NewSlog, NewLevel, wire.Struct(new(logger.Options), "*"))\n\treturn nil\n}\n'},
+    "struct_param_hides_type": {
+        "t.go": 'package main\n\ntype Addr string\ntype Limit int\n\ntype server struct {\n\tServer Limit\n\tAddr   Addr\n\taddr   int\n}\n\nfunc NewLimit() Limit { return 3 }\nfunc NewAddr() Addr   { return ":80" }\nfunc NewPort() int    { return 8 }\n',
+        "main.go": 'package main\n\nfunc main() { s := InitServer(); println(int(s.Server), string(s.Addr), s.addr) }\n',
+        "wire.go": '//go:build wireinject\n\npackage main\n\nimport "github.com/google/wire"\n\nfunc InitServer() *server {\n\twire.Build(NewLimit, NewAddr, NewPort, wire.Struct(new(server), "*"))\n\treturn nil\n}\n'},
+    # an import migrate adds must not take a name the package already uses at package level, nor the name kessoku (repaired)
+    "import_vs_package_identifier": {
+        "config/config.go": 'package config\n\ntype Config struct{ Name string }\n\nfunc New() Config { return Config{Name: "c"} }\n',
+        "t.go": 'package main\n\nimport cfgpkg "vscratch/NAME/config"\n\nvar config = cfgpkg.Config{Name: "fallback"}\n\ntype App struct{ Cfg cfgpkg.Config }\n',
+        "main.go": 'package main\n\nfunc main() { println(InitApp().Cfg.Name, config.Name) }\n',
+        "wire.go": '//go:build wireinject\n\npackage main\n\nimport (\n\t"github.com/google/wire"\n\n\tcfgpkg "vscratch/NAME/config"\n)\n\nfunc InitApp() *App {\n\twire.Build(cfgpkg.New, wire.Struct(new(App), "*"))\n\treturn nil\n}\n'},
+    "package_named_kessoku": {
+        "kessoku/k.go": 'package kessoku\n\ntype Band struct{ Name string }\n\nfunc NewBand() *Band { return &Band{Name: "kessoku"} }\n',
+        "main.go": 'package main\n\nfunc main() { println(InitBand().Name) }\n',
+        "wire.go": '//go:build wireinject\n\npackage main\n\nimport (\n\t"github.com/google/wire"\n\n\t"vscratch/NAME/kessoku"\n)\n\nfunc InitBand() *kessoku.Band {\n\twire.Build(kessoku.NewBand)\n\treturn nil\n}\n'},
+    # a provider written in parentheses is a provider (repaired: it was dropped without a word)
+    "parenthesised_provider": {
+        "t.go": 'package main\n\ntype Config struct{ S string }\ntype App struct{ C *Config }\n\nfunc NewConfig() *Config    { return &Config{S: "c"} }\nfunc NewApp(c *Config) *App { return &App{C: c} }\n',
+        "main.go": 'package main\n\nfunc main() { println(InitApp().C.S) }\n',
+        "wire.go": '//go:build wireinject\n\npackage main\n\nimport "github.com/google/wire"\n\nfunc InitApp() *App {\n\twire.Build((NewConfig), NewApp)\n\treturn nil\n}\n'},
     "interface_value_nested_selector": {
         "streams/streams.go": 'package streams\n\nimport "bytes"\n\nvar Std = struct{ Out *bytes.Buffer }{Out: bytes.NewBufferString("buf")}\n',
         "t.go": 'package main\n\nimport "fmt"\n\ntype App struct{ S string }\n\nfunc NewApp(w fmt.Stringer) *App { return &App{S: w.String()} }\n',
